@@ -1,19 +1,80 @@
-//! `--miri <summary.json>`: fold the result of `/verif/harness/miri.sh <ID> <summary.json>` into the
-//! evidence of the property.
+//! Miri shard integration.
+//!
+//! `--miri <summary.json>` (or env `LIBMON_MIRI=<summary.json>`): fold the result of
+//! `/verif/harness/miri.sh <ID> <summary.json>` into the evidence of the property.
+//! `--miri run` (or `LIBMON_MIRI=run`): start `miri.sh <ID> $VERIF_DIR/logs/miri-<ID>.json` at the
+//! beginning of the run (in parallel with the native workload), wait for it at the end, then fold.
 //!
 //! * `ub_reports > 0`            ⇒ violation `<ID>:miri:ub` (witness = the summary incl. the log tail);
 //! * shard could not build / timed out / tests failed without a UB report / summary unreadable
 //!   ⇒ the *Miri part* is inconclusive: noted in the evidence (`miri.status`), the run itself is not
 //!   failed and not made inconclusive;
 //! * otherwise `miri.status = "clean"`.
+use std::path::PathBuf;
+use std::process::{Child, Command, Stdio};
+use std::sync::Mutex;
 use vcommon::serde_json::Value;
 use vcommon::{json, Args, Monitor};
 
+static JOB: Mutex<Option<(Child, PathBuf)>> = Mutex::new(None);
+
+fn request(args: &Args) -> Option<String> {
+    args.extra
+        .get("miri")
+        .cloned()
+        .or_else(|| std::env::var("LIBMON_MIRI").ok())
+        .filter(|s| !s.is_empty())
+}
+
+/// Called once before the native workload: starts the shard when asked to (`run`).
+pub fn start(args: &Args) {
+    if request(args).as_deref() != Some("run") {
+        return;
+    }
+    if !matches!(args.id.as_str(), "C26" | "C27" | "C28" | "C34") {
+        return;
+    }
+    let mut script = args.verif_dir.join("harness").join("miri.sh");
+    if !script.exists() {
+        script = PathBuf::from("/verif/harness/miri.sh");
+    }
+    let logs = args.verif_dir.join("logs");
+    let _ = std::fs::create_dir_all(&logs);
+    let out = logs.join(format!("miri-{}.json", args.id));
+    let _ = std::fs::remove_file(&out);
+    match Command::new(&script)
+        .arg(&args.id)
+        .arg(&out)
+        .env("VERIF_SEED", args.seed.to_string())
+        .stdin(Stdio::null())
+        .stdout(Stdio::null())
+        .stderr(Stdio::null())
+        .spawn()
+    {
+        Ok(child) => *JOB.lock().unwrap() = Some((child, out)),
+        Err(e) => eprintln!("[{}] cannot start {}: {e} (Miri part inconclusive)", args.id, script.display()),
+    }
+}
+
 pub fn attach(args: &Args, mon: &mut Monitor) {
-    let Some(path) = args.extra.get("miri") else {
+    let Some(req) = request(args) else {
         return;
     };
-    let text = match std::fs::read_to_string(path) {
+    let path: String = if req == "run" {
+        match JOB.lock().unwrap().take() {
+            Some((mut child, out)) => {
+                let _ = child.wait();
+                out.display().to_string()
+            }
+            None => {
+                mon.set_extra("miri", json!({"status": "inconclusive", "reason": "Miri shard was not started (no shard for this property, or miri.sh missing)"}));
+                return;
+            }
+        }
+    } else {
+        req
+    };
+    let text = match std::fs::read_to_string(&path) {
         Ok(t) => t,
         Err(e) => {
             mon.set_extra(
